@@ -1,8 +1,10 @@
 SPECIFICATION Spec
 CONSTANTS
   Reqs <- Reqs2
+  Parts <- P11
+  RegAfter <- RegAfterWrite
   Dups = {3}
+  LookupAtomic = TRUE
   FailIdx = {}
-  RegisterFirst = FALSE
 INVARIANTS NoSpurious
 CHECK_DEADLOCK FALSE
